@@ -5,14 +5,21 @@ import GoLucene.Spec.C10
 import GoLucene.Proofs.PrintClean
 import GoLucene.Proofs.MarshalOk
 import GoLucene.Proofs.MarshalShape
+import GoLucene.Proofs.Cost
 /-
   C01 — parsing and rendering are total: no panic, no hang, no garbled output.
 
   * No hang: every function of the model is total (structural, fuel, or well-founded recursion accepted by Lean);
     the main loop's measure `3·|tokens| + |stack|` strictly decreases (`reduce_len`: a successful reduce strictly shrinks
     the stack and leaves it non-empty), so the loop runs at most `3·|tokens| + 1` iterations for ANY input —
-    the model's statement of "polynomial time".  The wall-clock clause is measured on the implementation (10^4-token
-    adversarial shapes under a watchdog), not proved.
+    the model's statement of "polynomial time".  Since the sixth phase this is an explicit COST theorem
+    (Proofs/Cost.lean): `runCost` threads a step counter through the very recursion of `runW` (`runT_eq`: the instrumented
+    run returns the model's result AND `runCost`), counting every loop iteration and every reducer attempt
+    (`reduce.Reduce` trying the reducers on one more suffix of the stack); `parse_steps_quadratic` bounds it by
+    `6·(tokens+1)²` using only "a successful reduce shrinks the stack", `parse_steps_linear` by `26·bytes + 35` using
+    that no handle is longer than 7 items.  What a step costs in Go (a reducer walking its operand:
+    `isChainedOrLiterals`, `String()` in fuzzy / boost — linear in the operand) and the wall clock are measured on the
+    implementation (10^4-token adversarial shapes under a watchdog), not proved.
   * No panic in Parse: `parse_never_panics` for every byte string and default field.  The two totalised list
     operations of the parser model (`List.drop` on the non-terminal stack, `headD` for its top) coincide with Go's
     slice and index expressions because the stack invariant holds in every reachable configuration
@@ -57,5 +64,24 @@ theorem parse_result_prints_clean (env : Env) (s df : Bytes) (e : Expr) (h : par
 
 /-- JSON encoding never panics, for any tree -/
 theorem marshal_never_panics (e : Expr) : marshalExpr e ≠ .panic := marshalExpr_no_panic e
+
+/-- the number of loop iterations and reducer attempts of the parser's control flow, for every byte string and default
+    field, is at most quadratic in the input length — by the termination argument alone -/
+theorem parse_steps_quadratic (env : Env) (df s : Bytes) :
+    Cost.runCost (isNumOf env df) ⟨[], [.start]⟩ (tokensOf env s) ≤ 6 * (s.length + 2) ^ 2 :=
+  Cost.parseQuery_cost_poly env df s
+
+/-- … and in fact linear (no reducer handle is longer than seven items) -/
+theorem parse_steps_linear (env : Env) (df s : Bytes) :
+    Cost.runCost (isNumOf env df) ⟨[], [.start]⟩ (tokensOf env s) ≤ 26 * s.length + 35 :=
+  Cost.parseQuery_cost_linear env df s
+
+/-- the counter counts THIS run: the instrumented run is the model's run paired with `runCost` -/
+theorem steps_are_the_runs (isNum : Bool → Ex → Bool) (c : Cfg) (toks : List Tok) :
+    Cost.runT isNum c toks = (runW isNum c toks, Cost.runCost isNum c toks) :=
+  Cost.runT_eq isNum _ c toks rfl
+
+/-- non-vacuity: a concrete run and its step count (`a:b c:d`, the implicit-AND path, is in Proofs/Cost.lean) -/
+example (isNum : Bool → Ex → Bool) : 1 ≤ Cost.runCost isNum ⟨[], [.start]⟩ [] := Cost.runCost_pos _ _ _
 
 end GoLucene.C01
